@@ -1,7 +1,10 @@
 (* Gen/C15Diag.v -- printed when C15_table_ok fails: the offending paths / access pairs *)
-From NX Require Import Bytes Locks AccessTable.
+From NX Require Import Bytes Locks Rmw AccessTable.
 Definition bad_wb := filter (fun p => negb (well_bracketed p [])) table.
 Definition allacc := dedup_acc (flat_map (fun p => accesses p []) table) [].
 Definition bad_pairs := flat_map (fun a1 => map (fun a2 => (a1,a2)) (filter (fun a2 => negb (pair_ok a1 a2)) allacc)) allacc.
 Eval vm_compute in (length bad_wb, firstn 2 bad_wb).
 Eval vm_compute in (length bad_pairs, firstn 8 bad_pairs).
+(* frames that write a location read earlier without a read of it in force (check-then-act) *)
+Definition bad_frames := filter (fun p => negb (recheck p)) frames.
+Eval vm_compute in (length bad_frames, firstn 4 bad_frames).
